@@ -771,6 +771,10 @@ package main
 //@ func lbToGo
 //@   trusted
 //@   panics may
+//@ func fcToGo
+//@   trusted
+//@   panics may
+//@   note abstract here: dispatch between full and partial application (fcFullApplyGo is under contract, C03)
 
 // the literal arms of the expression emitter (the other arms are abstract here)
 //@ func ExprToGo
